@@ -3,6 +3,22 @@ From QV Require Import Base Fields SrcFacts Msg SrcDecisions Cache CacheSpec Cac
 From Coq Require Import ZifyBool ZifyNat ZifyN.
 Local Open Scope Z_scope.
 
+(* the decisions of browser.cpp regenerated from the source (SrcDecisions), characterised once: which service types
+   updateService ignores, and which records of a response the first loop of onMessageReceived keeps *)
+Lemma not_of_interest_spec st ty :
+  browser_not_of_interest st ty =
+  ((match bs_data st with [] => true | _ :: _ => false end) || (negb (bs_eqb ty (Some browse_type)) && negb (bs_eqb st ty))).
+Proof. reflexivity. Qed.
+Lemma browser_any_spec ty : browser_any ty = bs_eqb ty (Some browse_type).
+Proof. reflexivity. Qed.
+Lemma browser_ptr_browse_spec any r ty : browser_ptr_browse any r ty = any && bs_eqb (r_name r) (Some browse_type).
+Proof. reflexivity. Qed.
+Lemma browser_ptr_type_spec any r ty : browser_ptr_type any r ty = any || bs_eqb (r_name r) ty.
+Proof. reflexivity. Qed.
+Lemma browser_srvtxt_spec any r ty : browser_srvtxt any r ty = any || ends_with ([DOT] ++ bs_data ty) (bs_data (r_name r)).
+Proof. reflexivity. Qed.
+
+
 (* the tie to service.cpp: Service::operator== compares every member of the private struct *)
 Lemma service_eq_all_fields :
   forallb (fun f => existsb (sfield_eqb f) service_eq_fields) all_sfields = true.
@@ -27,7 +43,7 @@ Theorem update_service_spec j v fq b :
       (exists old, smap_find key (b_services b) = Some old /\ service_eqb old s = false /\
                    es = [ESig (N.of_nat j) SIG_serviceUpdated (PService s)]))).
 Proof.
-  unfold update_service. destruct (split_fq fq) as [sname stype].
+  unfold update_service. destruct (split_fq fq) as [sname stype]. rewrite not_of_interest_spec.
   destruct ((match bs_data stype with [] => true | _ :: _ => false end)
             || (negb (bs_eqb (b_type b) (Some browse_type)) && negb (bs_eqb stype (b_type b)))) eqn:G.
   { left. split; [reflexivity|left; reflexivity]. }
